@@ -12,13 +12,17 @@ impl TimedCache {
     // C16 (ordering contract): a record may enter the cache only if the database holds it - it was returned by a database read or
     // accepted by a database write (knowledge token db_has, which can only be learnt from those postconditions)
     #[verifier::external_body] pub async fn batch_put(&self, records: &[DbRecord])
-        requires forall|i: int| 0 <= i < records@.len() ==> db_has(#[trigger] records@[i])
+        requires cache_fill_permitted(), forall|i: int| 0 <= i < records@.len() ==> db_has(#[trigger] records@[i])
     {}
     #[verifier::external_body] pub async fn put(&self, record: &DbRecord)
-        requires db_has(*record)
+        requires cache_fill_permitted(), db_has(*record)
     {}
 }
 
+// frame of the cache: only the entry points that are MEANT to fill it hold this permission (their callers grant it by calling them);
+// get_direct - "ignoring any caching" - does not, so it cannot touch the cache (C13: the change poller reads the epoch record through
+// get_direct precisely so that the instance's cached view does not move before the flush)
+pub uninterp spec fn cache_fill_permitted() -> bool;
 // "the database returned this record from a read, or accepted it in a write"
 pub uninterp spec fn db_has(rec: DbRecord) -> bool;
 
